@@ -20,6 +20,151 @@ pub struct Case {
     pub xf: Xf,
     /// the operator that produced `g` from a valid geometry (label only)
     pub op: u8,
+    /// when present the case is about one of the other geometry types, given directly in f64 coordinates
+    /// (non-finite values, repeated and collinear coordinates included); `g` is then ignored
+    #[serde(default)]
+    pub small: Option<Small>,
+}
+
+type PF = (f64, f64);
+/// The non-areal types and Rect / Triangle with adversarial coordinates; what is valid is read off the
+/// documentation of each `Invalid*` enum.
+#[derive(Clone, Debug, Serialize, Deserialize)]
+pub enum Small {
+    Pt(PF),
+    Ln(PF, PF),
+    Tri(PF, PF, PF),
+    Rc(PF, PF),
+    Ls(Vec<PF>),
+    Mpt(Vec<PF>),
+    Mls(Vec<Vec<PF>>),
+    Coll(Vec<Small>),
+}
+
+fn small_leaf() -> impl Strategy<Value = Small> {
+    // lattice value, or (1 in 12) a non-finite one
+    let v = || prop_oneof![11 => (-3i64..4).prop_map(|x| x as f64), 1 => prop_oneof![Just(f64::NAN), Just(f64::INFINITY), Just(f64::NEG_INFINITY)]];
+    let p = move || (v(), v());
+    prop_oneof![
+        1 => p().prop_map(Small::Pt),
+        2 => (p(), p()).prop_map(|(a, b)| Small::Ln(a, b)),
+        2 => (p(), p(), p()).prop_map(|(a, b, c)| Small::Tri(a, b, c)),
+        // ill-conditioned triangles: exactly collinear / off by an ulp / thin (shared with C03)
+        4 => crate::props::c03::triple_strategy().prop_map(|t| Small::Tri(t[0], t[1], t[2])),
+        1 => (p(), p()).prop_map(|(a, b)| Small::Rc(a, b)),
+        3 => proptest::collection::vec(p(), 0..6).prop_map(Small::Ls),
+        1 => proptest::collection::vec(p(), 0..5).prop_map(Small::Mpt),
+        2 => proptest::collection::vec(proptest::collection::vec(p(), 0..5), 0..4).prop_map(Small::Mls),
+    ]
+}
+fn small_strategy() -> impl Strategy<Value = Small> {
+    small_leaf().prop_recursive(2, 12, 4, |inner| proptest::collection::vec(inner, 0..4).prop_map(Small::Coll))
+}
+
+fn small_to_geo(s: &Small) -> Geometry<f64> {
+    let c = |p: &PF| geo::Coord { x: p.0, y: p.1 };
+    match s {
+        Small::Pt(p) => Geometry::Point(geo::Point(c(p))),
+        Small::Ln(a, b) => Geometry::Line(geo::Line::new(c(a), c(b))),
+        Small::Tri(a, b, d) => Geometry::Triangle(geo::Triangle(c(a), c(b), c(d))),
+        Small::Rc(a, b) => Geometry::Rect(geo::Rect::new(c(a), c(b))),
+        Small::Ls(v) => Geometry::LineString(geo::LineString::new(v.iter().map(c).collect())),
+        Small::Mpt(v) => Geometry::MultiPoint(geo::MultiPoint::new(v.iter().map(|p| geo::Point(c(p))).collect())),
+        Small::Mls(v) => Geometry::MultiLineString(geo::MultiLineString::new(v.iter().map(|l| geo::LineString::new(l.iter().map(c).collect())).collect())),
+        Small::Coll(v) => Geometry::GeometryCollection(geo::GeometryCollection::new_from(v.iter().map(small_to_geo).collect())),
+    }
+}
+
+/// Expected validation errors of a `Small` value, as the multiset of their Debug renderings (None = the verdict
+/// is not decided by the documentation for this input, e.g. collinearity of non-finite corners).
+fn small_expected(s: &Small, labels: &mut Vec<&'static str>) -> Option<Vec<String>> {
+    let fin = |p: &PF| p.0.is_finite() && p.1.is_finite();
+    let ls_errors = |v: &Vec<PF>| -> Vec<String> {
+        let mut out = vec![];
+        if v.is_empty() {
+            return out;
+        }
+        let mut d: Vec<PF> = vec![];
+        for p in v {
+            // consecutive repeated points count once (NaN never equals itself)
+            if d.last().map(|q| q.0 == p.0 && q.1 == p.1) != Some(true) {
+                d.push(*p);
+            }
+        }
+        if d.len() < 2 {
+            out.push("TooFewPoints".to_string());
+        }
+        for (i, p) in v.iter().enumerate() {
+            if !fin(p) {
+                out.push(format!("NonFiniteCoord(CoordIndex({i}))"));
+            }
+        }
+        out
+    };
+    Some(match s {
+        Small::Pt(p) => if fin(p) { vec![] } else { vec!["NonFiniteCoord".into()] },
+        Small::Ln(a, b) => {
+            let mut out = vec![];
+            if !fin(a) { out.push("NonFiniteCoord(CoordIndex(0))".into()); }
+            if !fin(b) { out.push("NonFiniteCoord(CoordIndex(1))".into()); }
+            if a.0 == b.0 && a.1 == b.1 { out.push("IdenticalCoords".into()); labels.push("small:zero-length-line"); }
+            out
+        }
+        Small::Tri(a, b, d) => {
+            let mut out = vec![];
+            for (i, p) in [a, b, d].iter().enumerate() {
+                if !fin(p) { out.push(format!("NonFiniteCoord(CoordIndex({i}))")); }
+            }
+            let eq = |p: &PF, q: &PF| p.0 == q.0 && p.1 == q.1;
+            let mut ident = false;
+            for (i, j, p, q) in [(0, 1, a, b), (0, 2, a, d), (1, 2, b, d)] {
+                if eq(p, q) { out.push(format!("IdenticalCoords(CoordIndex({i}), CoordIndex({j}))")); ident = true; }
+            }
+            if !ident {
+                if !(fin(a) && fin(b) && fin(d)) {
+                    return None;
+                }
+                // exactness domain of the adaptive predicate (see C03)
+                let in_range = |v: f64| v == 0.0 || (v.abs() >= 2f64.powi(-400) && v.abs() <= 2f64.powi(400));
+                if ![a, b, d].iter().all(|p| in_range(p.0) && in_range(p.1)) {
+                    return None;
+                }
+                let o = crate::exact::big::orient_f64(*a, *b, *d);
+                let naive = (b.0 - a.0) * (d.1 - a.1) - (b.1 - a.1) * (d.0 - a.0);
+                if o == 0 { out.push("CollinearCoords".into()); labels.push("small:triangle-exactly-collinear"); }
+                if (o == 0) != (naive == 0.0) { labels.push("small:triangle-naive-area-misjudges"); }
+            }
+            out
+        }
+        Small::Rc(a, b) => {
+            // Rect::new re-normalises; with a NaN the corners are unspecified, so only the verdict is decided
+            if fin(a) && fin(b) { vec![] } else { return None }
+        }
+        Small::Ls(v) => ls_errors(v),
+        Small::Mpt(v) => v.iter().enumerate().filter(|(_, p)| !fin(p)).map(|(i, _)| format!("InvalidPoint(GeometryIndex({i}), NonFiniteCoord)")).collect(),
+        Small::Mls(v) => v.iter().enumerate().flat_map(|(i, l)| ls_errors(l).into_iter().map(move |e| format!("InvalidLineString(GeometryIndex({i}), {e})"))).collect(),
+        Small::Coll(_) => return None,
+    })
+}
+
+/// is the value valid (decided even where the exact error list is not): None = undecided
+fn small_valid(s: &Small) -> Option<bool> {
+    let mut l = vec![];
+    match s {
+        Small::Rc(a, b) => Some(a.0.is_finite() && a.1.is_finite() && b.0.is_finite() && b.1.is_finite()),
+        Small::Coll(v) => {
+            let mut all = Some(true);
+            for m in v {
+                match small_valid(m) {
+                    Some(false) => return Some(false),
+                    None => all = None,
+                    _ => {}
+                }
+            }
+            all
+        }
+        _ => small_expected(s, &mut l).map(|e| e.is_empty()),
+    }
 }
 
 pub struct C14;
@@ -258,9 +403,10 @@ impl Property for C14 {
     fn strategy(_tier: Tier) -> BoxedStrategy<Case> {
         prop_oneof![
             8 => (areal_strategy(), 0u8..NOPS, any::<u64>(), proptest::option::weighted(0.08, (any::<u8>(), any::<u8>(), any::<u8>(), 0u8..3, 0u8..2)), xf_strategy())
-                .prop_map(|(g, op, s, nonfinite, xf)| Case { g: mutate(&g, op, s), nonfinite, xf, op }),
+                .prop_map(|(g, op, s, nonfinite, xf)| Case { g: mutate(&g, op, s), nonfinite, xf, op, small: None }),
             1 => (geom_strategy(), proptest::option::weighted(0.1, (any::<u8>(), any::<u8>(), any::<u8>(), 0u8..3, 0u8..2)), xf_strategy())
-                .prop_map(|(g, nonfinite, xf)| Case { g, nonfinite, xf, op: 255 }),
+                .prop_map(|(g, nonfinite, xf)| Case { g, nonfinite, xf, op: 255, small: None }),
+            2 => small_strategy().prop_map(|sm| Case { g: G::MultiPoint(vec![]), nonfinite: None, xf: Xf::ID, op: 254, small: Some(sm) }),
         ]
         .boxed()
     }
@@ -290,9 +436,16 @@ impl Property for C14 {
         (0..NOPS).map(|i| OPL[i as usize]).chain(["oracle:valid", "oracle:invalid", "nonfinite", "single-defect"]).collect()
     }
     fn show(c: &Case) -> Value {
-        json!({"g": wkt(&c.g), "nonfinite": c.nonfinite, "xf": c.xf, "op": c.op})
+        match &c.small {
+            Some(sm) => json!({"small": format!("{:?}", sm)}),
+            None => json!({"g": wkt(&c.g), "nonfinite": c.nonfinite, "xf": c.xf, "op": c.op}),
+        }
     }
     fn check(c: &Case, obs: &mut Obs) {
+        if let Some(sm) = &c.small {
+            check_small(sm, obs);
+            return;
+        }
         if (c.op as usize) < OPL.len() {
             obs.label(OPL[c.op as usize]);
         }
@@ -430,6 +583,57 @@ impl Property for C14 {
             }
         }
         let _ = MultiPolygon::<f64>::new(vec![]);
+    }
+}
+
+fn check_small(sm: &Small, obs: &mut Obs) {
+    let gg = small_to_geo(sm);
+    let tn = crate::conv::geom_type_name(&gg);
+    obs.label("sub:other-types-adversarial");
+    obs.label(format!("type:{tn}"));
+    let mut labels = vec![];
+    let expected = small_expected(sm, &mut labels);
+    for l in labels {
+        obs.label(l);
+    }
+    let want_valid = small_valid(sm);
+    if want_valid == Some(false) {
+        obs.label("oracle:invalid");
+        obs.nontrivial();
+    } else if want_valid == Some(true) {
+        obs.label("oracle:valid");
+    }
+    let ctx = || format!("{:?}", sm);
+    macro_rules! run {
+        ($($v:ident),*) => { match &gg { $( Geometry::$v(x) => guard(std::panic::AssertUnwindSafe(|| {
+            let errs: Vec<String> = x.validation_errors().iter().map(|e| format!("{:?}", e)).collect();
+            (x.is_valid(), errs, x.check_validation().err().map(|e| format!("{:?}", e)))
+        })), )* } }
+    }
+    let r = run!(Point, Line, LineString, Polygon, MultiPoint, MultiLineString, MultiPolygon, Rect, Triangle, GeometryCollection);
+    match r {
+        Err(pn) => obs.fail(format!("validation:{tn}|panic|{}", pn.site()), format!("{} {}", pn, ctx())),
+        Ok((valid, errs, first)) => {
+            obs.cmp();
+            if let Some(w) = want_valid {
+                obs.expect(valid == w, &format!("is_valid:{tn}|got={valid},want={w}"), || format!("errors {:?}; {}", errs, ctx()));
+            }
+            obs.expect(errs.is_empty() == valid, &format!("validation_errors:{tn}|inconsistent-with-is_valid"), || format!("{:?}; {}", errs, ctx()));
+            obs.expect(first == errs.first().cloned(), &format!("check_validation:{tn}|not-the-first-error"), || format!("{:?} vs {:?}; {}", first, errs, ctx()));
+            if let Some(mut want) = expected {
+                let mut got = errs.clone();
+                got.sort();
+                want.sort();
+                obs.expect(got == want, &format!("validation_errors:{tn}|wrong-errors"), || format!("got {:?} want {:?}; {}", got, want, ctx()));
+            }
+        }
+    }
+    // the Geometry enum gives the same verdict
+    if let Ok((v2, e2)) = guard(std::panic::AssertUnwindSafe(|| (gg.is_valid(), gg.validation_errors().len()))) {
+        obs.expect((e2 == 0) == v2, &format!("validation_errors:Geometry[{tn}]|inconsistent-with-is_valid"), || ctx());
+        if let Some(w) = want_valid {
+            obs.expect(v2 == w, &format!("is_valid:Geometry[{tn}]|got={v2},want={w}"), || ctx());
+        }
     }
 }
 
